@@ -884,7 +884,9 @@ func c03Run(c *mc.Ctx) {
 		for _, g := range gens {
 			for _, n := range widths {
 				gg, nn := g, n
-				if next(func() json.RawMessage { return mc.J(c03Case{Part: "wide-operands", Source: fmt.Sprintf("%s of width %d in every slot of every form", gg.name, nn)}) }) {
+				if next(func() json.RawMessage {
+					return mc.J(c03Case{Part: "wide-operands", Source: fmt.Sprintf("%s of width %d in every slot of every form", gg.name, nn)})
+				}) {
 					for _, p := range c03WidePrograms(g.mk(n)) {
 						c03Layouts(c, p, 0, "wide_operands")
 					}
@@ -899,7 +901,9 @@ func c03Run(c *mc.Ctx) {
 		cnt := 0
 		for _, n := range widths {
 			nn := n
-			if next(func() json.RawMessage { return mc.J(c03Case{Part: "wide-statements", Source: fmt.Sprintf("statement constructs with %d parts", nn)}) }) {
+			if next(func() json.RawMessage {
+				return mc.J(c03Case{Part: "wide-statements", Source: fmt.Sprintf("statement constructs with %d parts", nn)})
+			}) {
 				for _, p := range c03WideStmtPrograms(n) {
 					c03Layouts(c, p, 0, "wide_statements")
 					cnt++
